@@ -22,7 +22,7 @@ META = {
 LEVEL = META['level']
 RULE = ('a case = one member list executed both ways from one initial state; distinct by (configuration, initial state, bundle bytes); non-trivial = at least two members and at least one write')
 ASSUMPTIONS = ['both executions use the in-process frame pipeline (bytes in, bytes out) with identical configuration and initial values']
-REQUIRED = ['members:standard-object', 'bundles', 'members', 'members:failing', 'members:unroutable-alone', 'members:write', 'members:read', 'members:attribute-service', 'bundle:size>=10',
+REQUIRED = ['bundle:reply>32KiB', 'members:standard-object', 'bundles', 'members', 'members:failing', 'members:unroutable-alone', 'members:write', 'members:read', 'members:attribute-service', 'bundle:size>=10',
             'monitor:member-bytes-equal', 'monitor:state-equal', 'monitor:offset-table', 'bundle:overlapping-writes']
 TIMEOUT = {'quick': 300, 'thorough': 2400}
 SOFT = {'quick': 30, 'thorough': 600}
@@ -156,10 +156,24 @@ def flat(state):
             yield x
 
 
+def big_bundle(ctx, rng):
+    """a bundle whose reply is larger than 32 KiB: the 16-bit offsets of the later members no longer fit a signed word"""
+    cfg = [('BigD', 'DINT', 300, None), ('W', 'INT', 4, None)]
+    k = rng.choice([70, 90, 130])
+    members = [{'path': {'segment': [{'symbolic': 'BigD'}, {'element': rng.randrange(0, 180)}]}, 'read_tag': {'elements': 120}} for _ in range(k)]
+    members.insert(rng.randrange(3), {'path': {'segment': [{'symbolic': 'W'}]}, 'write_tag': {'type': 0xC3, 'elements': 2, 'data': [7, 8]}})
+    members.append({'path': {'segment': [{'symbolic': 'W'}, {'element': 2}]}, 'write_tag': {'type': 0xC3, 'elements': 2, 'data': [rng.randrange(1000), 9]}})
+    members.append({'path': {'segment': [{'symbolic': 'W'}]}, 'read_tag': {'elements': 4}})
+    init = init_values(rng, cfg)
+    ctx.count('bundle:reply>32KiB')
+    run_bundle(ctx, cfg, members, init, {'config': cfg, 'initial': init, 'members': members[:3] + ['... %d reads of 480 bytes ...' % k] + members[-2:], 'big': True})
+
+
 def run(ctx):
     from vlib import reqgen
     rng = ctx.rng
     n = 120 if ctx.tier == 'quick' else 10**7
+    big_bundle(ctx, rng)
     for i in range(n):
         if ctx.expired():
             break
